@@ -54,6 +54,20 @@ def main():
         write_if_changed(os.path.join(out, 'All.lean'), allf)
     with open(os.path.join(out, 'gen_meta.json'), 'w') as f:
         json.dump(meta, f, indent=1, sort_keys=True)
+    if not args:
+        # companions of the same kind: effect table and configuration table (AST extraction)
+        for comp in ('effects', 'configs'):
+            try:
+                mod = __import__(comp)
+                if comp == 'effects':
+                    mod.emit(mod.analyse(), out)
+                else:
+                    mod.emit(mod.analyse(), out)
+                meta['modules'][comp.capitalize()] = dict(module=comp.capitalize(), source='AST extraction', inputs=[], defs=[])
+            except Exception as ex:
+                meta['aborts'][comp.capitalize()] = dict(kind=type(ex).__name__, msg=str(ex), tb=traceback.format_exc(limit=-4))
+        with open(os.path.join(out, 'gen_meta.json'), 'w') as f:
+            json.dump(meta, f, indent=1, sort_keys=True)
     for n, a in meta['aborts'].items():
         print('ABORT', n, a['kind'], a['msg'])
     print('generated', len(meta['modules']), 'modules;', len(meta['aborts']), 'aborts')
